@@ -1571,7 +1571,8 @@ fn aggregate_scalar_simd(
                 let min = a.iter().flatten().min();
                 Arc::new(Int64Array::from(vec![min]))
             } else if let Some(a) = input.as_any().downcast_ref::<Float64Array>() {
-                let min = a.iter().flatten().min_by(|a, b| a.partial_cmp(b).unwrap());
+                // f64::min skips NaN like the grouped paths do (partial_cmp().unwrap() panicked on it)
+                let min = a.iter().flatten().reduce(f64::min);
                 Arc::new(Float64Array::from(vec![min]))
             } else if let Some(a) = input.as_any().downcast_ref::<StringArray>() {
                 let min = a.iter().flatten().min();
@@ -1595,7 +1596,7 @@ fn aggregate_scalar_simd(
                 let max = a.iter().flatten().max();
                 Arc::new(Int64Array::from(vec![max]))
             } else if let Some(a) = input.as_any().downcast_ref::<Float64Array>() {
-                let max = a.iter().flatten().max_by(|a, b| a.partial_cmp(b).unwrap());
+                let max = a.iter().flatten().reduce(f64::max);
                 Arc::new(Float64Array::from(vec![max]))
             } else if let Some(a) = input.as_any().downcast_ref::<StringArray>() {
                 let max = a.iter().flatten().max();
